@@ -14,7 +14,7 @@ package raft
 //@ interface LogStore.GetLog(index, log)
 //@   requires lognonnil: log != nil
 //@   modifies *log
-//@   ensures  found:    result == nil ==> this.has[index] && *log == this.ent[index]
+//@   ensures  found:    result == nil ==> this.has[index] && *log == this.ent[index] && log.Index == index
 //@   ensures  notfound: !this.has[index] ==> result != nil
 
 //@ interface LogStore.StoreLogs(logs)
@@ -511,9 +511,23 @@ package raft
 //@              r.configurations.committed == old(r.configurations.latest)
 
 //@ func (r *Raft) processLogs
-//@   trusted hands entries lastApplied+1..index to the FSM goroutine; to be verified under C02
-//@   modifies r.lastApplied, sent(r.fsmMutateCh)
+//@   requires nonnil: r != nil && r.logs != nil && r.logger != nil && typeis(r.conf.v, Config)
+//@   requires only_committed: index <= r.commitIndex
+//@   requires no_futures: futures == nil
+//@   requires index_range: index < MaxInt63
+//@   modifies r.lastApplied, sent(r.fsmMutateCh), allof("H.logFuture."), allof("CH.sent.error"), allof("CH.last.error"), allof("CH.closed"), allof("CH.sent.interface"), allof("CH.last.interface")
 //@   ensures  applied: r.lastApplied == max(old(r.lastApplied), index)
+//@   ensures  old_index_sends_nothing: index <= old(r.lastApplied) ==> sent(r.fsmMutateCh) == old(sent(r.fsmMutateCh))
+//@   ensures  no_skip: forall i uint64 :: old(r.lastApplied) < i && i <= index && !dom(futures, i) ==> r.logs.has[i]
+//@   at call (*Raft).processLogs$1#1 assert batch_in_order: (forall x int, y int :: 0 <= x && x < y && y < len(batch) ==> batch[x].log.Index < batch[y].log.Index) &&
+//@              (forall x int :: 0 <= x && x < len(batch) ==> batch[x] != nil && batch[x].log != nil && lastApplied < batch[x].log.Index && batch[x].log.Index <= index)
+//@   at call (*Raft).processLogs$1#2 assert batch_in_order: (forall x int, y int :: 0 <= x && x < y && y < len(batch) ==> batch[x].log.Index < batch[y].log.Index) &&
+//@              (forall x int :: 0 <= x && x < len(batch) ==> batch[x] != nil && batch[x].log != nil && lastApplied < batch[x].log.Index && batch[x].log.Index <= index)
+//@   loop 1 invariant progress: lastApplied < idx && idx <= index + 1 && r.lastApplied == old(r.lastApplied)
+//@   loop 1 invariant seen: forall i uint64 :: lastApplied < i && i < idx && !dom(futures, i) ==> r.logs.has[i]
+//@   loop 1 invariant batch_sorted: (forall x int, y int :: 0 <= x && x < y && y < len(batch) ==> batch[x].log.Index < batch[y].log.Index) &&
+//@              (forall x int :: 0 <= x && x < len(batch) ==> batch[x] != nil && batch[x].log != nil && lastApplied < batch[x].log.Index && batch[x].log.Index < idx)
+//@   loop 1 invariant batch_fresh: isfresh(batch)
 
 //@ spec func aeResp(rpc RPC) *AppendEntriesResponse = cast(lastsent(rpc.RespChan).Response, *AppendEntriesResponse)
 //@ spec func wfAppend(a *AppendEntriesRequest) bool =
@@ -531,6 +545,7 @@ package raft
 //@   requires wf: wfAppend(a)
 //@   requires term_inv: r.currentTerm == curTermDurable(r)
 //@   requires tail: tailInv(r) && noneAboveTail(r)
+//@   requires index_range: r.lastLogIndex < MaxInt63 && r.lastSnapshotIndex < MaxInt63
 //@   ensures  tail_consistent: aeResp(rpc).Success ==> tailInv(r)
 //@   ensures  tail_consistent_after_failed_store: tailInv(r)
 //@   ensures  none_above_tail: lastsent(rpc.RespChan).Error == nil ==> noneAboveTail(r)
